@@ -1,6 +1,6 @@
 /-
 Lemmas.DescViews — helper lemmas for C36 (core Lean only): binary search over a sorted range list,
-the sort of `lazyInit`, the `CheckValid` loop, first-wins / last-wins tables, name counting,
+the sort of `lazyInit`, the `CheckValid` loop, first-wins tables, name counting,
 `AppendFullName` / `FullName.Name` / `FullName.Parent`.
 -/
 import PbVerif.Model.DescViews
@@ -131,26 +131,29 @@ theorem sortByStart_unique (rs ls : List Rng) (hp : ls.Perm rs)
 def prevOk (e : Rng → Int) (prev : Option Rng) (r : Rng) : Bool :=
   match prev with | none => true | some rp => decide (e rp < r.start)
 
-theorem checkLoop_cons (e : Rng → Int) (ok : Int → Bool) (prev : Option Rng) (r : Rng) (rest : List Rng) :
-    checkLoop e ok prev (r :: rest) =
-      (ok r.start && (ok (e r) && (decide (r.start ≤ e r) && (prevOk e prev r && checkLoop e ok (some r) rest)))) := by
+theorem checkLoop_cons (e : Rng → Int) (ok : Int → Bool) (okR : Rng → Bool) (prev : Option Rng) (r : Rng) (rest : List Rng) :
+    checkLoop e ok okR prev (r :: rest) =
+      (ok r.start && (ok (e r) && (okR r && (prevOk e prev r && checkLoop e ok okR (some r) rest)))) := by
   simp only [checkLoop, prevOk]
-  cases ok r.start <;> cases ok (e r) <;> cases decide (r.start ≤ e r) <;> cases prev <;> simp
+  cases ok r.start <;> cases ok (e r) <;> cases okR r <;> cases prev <;> simp
   congr 1; simp only [← decide_not, Int.not_le]
 
-theorem checkLoop_iff (e : Rng → Int) (ok : Int → Bool) (prev : Option Rng) (ls : List Rng) :
-    checkLoop e ok prev ls = true ↔
-      (∀ r ∈ ls, ok r.start = true ∧ ok (e r) = true ∧ r.start ≤ e r) ∧
+theorem checkLoop_iff (e : Rng → Int) (ok : Int → Bool) (okR : Rng → Bool) (prev : Option Rng) (ls : List Rng)
+    (hok : ∀ r ∈ ls, okR r = true → r.start ≤ e r) :
+    checkLoop e ok okR prev ls = true ↔
+      (∀ r ∈ ls, ok r.start = true ∧ ok (e r) = true ∧ okR r = true) ∧
       ls.Pairwise (fun a b => e a < b.start) ∧
       (∀ rp, prev = some rp → ∀ r ∈ ls, e rp < r.start) := by
   induction ls generalizing prev with
   | nil => simp [checkLoop]
   | cons r rest ih =>
     rw [checkLoop_cons]
-    simp only [Bool.and_eq_true, decide_eq_true_eq, ih (some r)]
+    have ih := fun prev => ih prev (fun x hx => hok x (List.mem_cons_of_mem _ hx))
+    simp only [Bool.and_eq_true, ih (some r)]
     constructor
     · rintro ⟨h1, h2, h3, h4, ha, hb, hc⟩
       have hc' := hc r rfl
+      have h3' := hok r List.mem_cons_self h3
       refine ⟨?_, List.pairwise_cons.2 ⟨hc', hb⟩, ?_⟩
       · intro x hx
         rcases List.mem_cons.1 hx with hx | hx
@@ -207,31 +210,6 @@ theorem byKeyFirst_eq (keysOf : α → List κ) (l : List α) (k : κ) :
   | nil => simp [Tbl.empty]
   | cons d ds => simp [buildFirstFrom_eq, Tbl.empty]
 
-theorem buildLastFrom_eq (keyOf : α → κ) (i : Nat) (l : List α) (m : Tbl κ Nat) (k : κ) :
-    (buildLastFrom keyOf i l m).get k =
-      (((l.reverse.findIdx? (fun d => decide (keyOf d = k))).map (fun j => i + (l.length - 1 - j)))).or (m.get k) := by
-  induction l generalizing i m with
-  | nil => simp [buildLastFrom]
-  | cons f fs ih =>
-    rw [buildLastFrom, ih, List.reverse_cons, List.findIdx?_append]
-    cases hfs : fs.reverse.findIdx? (fun d => decide (keyOf d = k)) with
-    | some j =>
-      have := (List.findIdx?_eq_some_iff_findIdx_eq.1 hfs).1
-      simp at this
-      simp; omega
-    | none =>
-      by_cases hk : keyOf f = k
-      · simp [Tbl.set, hk, List.findIdx?_cons]
-      · simp [Tbl.set, hk, List.findIdx?_cons, Ne.symm hk]
-
-theorem byKeyLast_eq (keyOf : α → κ) (l : List α) (k : κ) :
-    byKeyLast keyOf l k =
-      (l.reverse.findIdx? (fun d => decide (keyOf d = k))).map (fun j => l.length - 1 - j) := by
-  unfold byKeyLast buildLast
-  cases l with
-  | nil => simp [Tbl.empty]
-  | cons d ds => simp [buildLastFrom_eq, Tbl.empty]
-
 theorem byKeyFirst_some_iff (keysOf : α → List κ) (l : List α) (k : κ) (i : Nat) :
     byKeyFirst keysOf l k = some i ↔
       ∃ h : i < l.length, k ∈ keysOf l[i] ∧ ∀ j (hj : j < i), k ∉ keysOf (l[j]'(by omega)) := by
@@ -241,37 +219,6 @@ theorem byKeyFirst_some_iff (keysOf : α → List κ) (l : List α) (k : κ) (i 
 theorem byKeyFirst_none_iff (keysOf : α → List κ) (l : List α) (k : κ) :
     byKeyFirst keysOf l k = none ↔ ∀ d ∈ l, k ∉ keysOf d := by
   rw [byKeyFirst_eq, List.findIdx?_eq_none_iff]
-  simp
-
-theorem byKeyLast_some_iff (keyOf : α → κ) (l : List α) (k : κ) (i : Nat) :
-    byKeyLast keyOf l k = some i ↔
-      ∃ h : i < l.length, keyOf l[i] = k ∧ ∀ j (_ : i < j) (hj : j < l.length), keyOf l[j] ≠ k := by
-  rw [byKeyLast_eq, Option.map_eq_some_iff]
-  constructor
-  · rintro ⟨a, ha, rfl⟩
-    rw [List.findIdx?_eq_some_iff_getElem] at ha
-    obtain ⟨h, h1, h2⟩ := ha
-    simp only [List.length_reverse] at h
-    refine ⟨by omega, ?_, ?_⟩
-    · simpa [List.getElem_reverse] using h1
-    · intro j hij hj
-      have := h2 (l.length - 1 - j) (by omega)
-      simp only [List.getElem_reverse, decide_eq_true_eq] at this
-      have e : l.length - 1 - (l.length - 1 - j) = j := by omega
-      simpa [e] using this
-  · rintro ⟨h, h1, h2⟩
-    refine ⟨l.length - 1 - i, ?_, by omega⟩
-    rw [List.findIdx?_eq_some_iff_getElem]
-    refine ⟨by simp only [List.length_reverse]; omega, ?_, ?_⟩
-    · have e : l.length - 1 - (l.length - 1 - i) = i := by omega
-      simpa [List.getElem_reverse, e] using h1
-    · intro j hj
-      have := h2 (l.length - 1 - j) (by omega) (by omega)
-      simpa [List.getElem_reverse] using this
-
-theorem byKeyLast_none_iff (keyOf : α → κ) (l : List α) (k : κ) :
-    byKeyLast keyOf l k = none ↔ ∀ d ∈ l, keyOf d ≠ k := by
-  rw [byKeyLast_eq, Option.map_eq_none_iff, List.findIdx?_eq_none_iff]
   simp
 
 end tables
